@@ -140,6 +140,10 @@ def check(world, tier):
     sink_clause(world, eng, Rv, d)
     # ------------------------------------------------------------ e
     payload_bound(world, eng, Rv, e_)
+    # single-port mode: the datagram reaches the worker through the listener's buffer, which must never shrink below an accepted blksize
+    from .listener import buffer_monotone
+    f_ = rep.clause("C02.f", "single-port: the listener's receive buffer never shrinks (a DATA block is never truncated on its way to the worker)")
+    buffer_monotone(world, eng, f_, "a DATA block of an upload in flight is truncated, acknowledged and stored short (and taken for the final block)")
     return rep
 
 
